@@ -39,3 +39,20 @@ Definition run_tasks_drawing (sigma : list nat) (n : nat) (s : St) : list (optio
   fold_left (fun (st : list (option R) * St) i => let (slots, s0) := st in let (a, s1) := draw s0 in (set_slot i (job a) slots, s1))
             sigma (repeat None n, s).
 End Sched.
+
+(* SECOND VARIANT: a shared cell (Continuum.best_window_size, which copy_flush copies into every sample) is WRITTEN by a job while the main thread
+   is still drawing samples that READ it.  An execution is an interleaving of the main thread's draws and the worker's write. *)
+Section SharedCell.
+Variables (A St C : Type).
+Variable draw : C -> St -> A * St.     (* the sample reads the cell *)
+Variable write : C -> C.              (* what the job stores in it *)
+Inductive ev := EDraw | EWrite.
+Fixpoint interleaved (evs : list ev) (c : C) (s : St) : list A * (C * St) :=
+  match evs with
+  | [] => ([], (c, s))
+  | EDraw :: t => let (a, s1) := draw c s in let (l, r) := interleaved t c s1 in (a :: l, r)
+  | EWrite :: t => interleaved t (write c) s
+  end.
+Definition is_draw (e : ev) : bool := match e with EDraw => true | EWrite => false end.
+End SharedCell.
+
